@@ -238,7 +238,7 @@ def check(case, ctx):
         if m in CUM:
             return getattr(fg, m)()
         if m in ROLL:
-            return getattr(fg.rolling(w, min_periods=1), m.replace("rolling_", ""))()
+            return getattr(fg.rolling(w, min_periods=case.get("min_periods", 1)), m.replace("rolling_", ""))()
         if m in ("head", "tail"):
             return getattr(fg, m)(case["k"])
         if m == "nth":
@@ -271,7 +271,7 @@ def check(case, ctx):
         if m in CUM:
             return getattr(core, m)(vals)
         if m in ROLL:
-            return getattr(core, m)(vals, window=w, min_periods=1)
+            return getattr(core, m)(vals, window=w, min_periods=case.get("min_periods", 1))
         if m in ("head", "tail"):
             return getattr(core, m)(vals, case["k"], keep_input_index=True)
         if m == "nth":
@@ -319,7 +319,7 @@ def check(case, ctx):
         d = _cmp_frames(fr, pr, tolf, f"facade {m} vs pandas groupby.{m} (rows holding a value)", by_label=False, only_where=where, ignore_index=(m == "cumcount")) if isinstance(fr, (pd.Series, pd.DataFrame)) else "not a pandas object"
         if d:
             fails.append({"monitor": "c17.pandas", "sig": sig, "detail": d})
-    elif m in ROLL and case["index_kind"] in ("default", "perm"):
+    elif m in ROLL and case["index_kind"] in ("default", "perm") and case.get("min_periods", 1) == 1:
         name = m.replace("rolling_", "")
         try:
             pr = getattr(pg.rolling(w, min_periods=1), name)()
@@ -436,6 +436,10 @@ def gen_case(rng):
         case["keycols"] = keycols[:1]
     if case["method"] == "nth":
         case["k"] = int(rng.integers(-3, 4))
+    # the facade must hand min_periods through unchanged (None = window, 0 = no minimum)
+    case["min_periods"] = gen.pick(rng, [1, 1, None, 0, case["window"]])
+    if case["method"] == "rolling_mean" and case["min_periods"] == 0:
+        case["min_periods"] = 1  # a mean over zero observations is outside the documented range (min_periods >= 1)
     return case
 
 
